@@ -31,7 +31,7 @@ CLAIMS = {
         "note": _T + "re-layout beyond 5 gaps at a time and removal of existing line breaks are outside",
     },
     "C06": {
-        "text": "Bounded: K06 proves repeatability and independence of check_rules on 2-3 stub rules with symbolic metadata; L06 proves on corpus explorations (incl. option-flip configurations) that analysis leaves token state and the token index untouched, that a second check reports the same, and that each reporting rule alone on a fresh parse reports what it reported inside the full run.",
+        "text": "Bounded: K06 proves repeatability and independence of check_rules on 2-3 stub rules with symbolic metadata; K06c analyses each rule's own fixture with that rule under every value of each of its string options (domain read from the rule's source and docstring, engine-forked) and proves tokens and token index are left untouched and a repeated analysis reports the same; L06 proves on corpus explorations (incl. option-flip configurations) that analysis leaves token state and the token index untouched, that a second check reports the same, and that each reporting rule alone on a fresh parse reports what it reported inside the full run.",
         "design_ref": "DESIGN.md section 4 C06",
         "note": _T + "at most 6 reporting rules per file are re-run alone",
     },
